@@ -21,7 +21,7 @@ NCPU = os.cpu_count() or 4
 
 
 class Query:
-    def __init__(s, name, cpp, q, defines=(), unwind=3, unwindset=None, timeout=600, solvers=('kissat',), checks=True,
+    def __init__(s, name, cpp, q, defines=(), unwind=3, unwindset=None, timeout=600, solvers=('kissat', 'minisat'), checks=None,
                  witness=True, expect_witness=True, note='', mem_gb=24, extra_flags=()):
         s.name, s.cpp, s.q, s.defines = name, cpp, q, tuple(defines)
         s.unwind, s.unwindset, s.timeout, s.solvers = unwind, unwindset, timeout, tuple(solvers)
@@ -104,6 +104,8 @@ def parse_cbmc(out):
             for r in e['result']:
                 if r.get('status') == 'FAILURE':
                     res['failed'].append(dict(property=r.get('property'), description=r.get('description'), trace=r.get('trace')))
+        if e.get('status') == 'failed' and 'property' in e:      # --stop-on-fail format
+            res['failed'].append(dict(property=e.get('property'), description=e.get('description'), trace=e.get('trace')))
         if 'cProverStatus' in e:
             res['status'] = e['cProverStatus']
     return res
@@ -153,8 +155,10 @@ class Runner:
         if Q.unwindset: flags += ['--unwindset', Q.unwindset]
         flags += ['--drop-unused-functions', '--slice-formula'] + solver_flags(solver) + list(Q.extra_flags)
         if kind == 'verify':
-            flags += ['--unwinding-assertions', '--trace']
-            if not Q.checks: flags += ['--no-standard-checks']
+            flags += ['--unwinding-assertions', '--trace', '--stop-on-fail']
+            flags += ['--no-standard-checks']
+            if Q.checks == 'pointer': flags += ['--pointer-check']
+            elif Q.checks == 'all': flags.remove('--no-standard-checks')
         else:
             flags += ['-DVP_WITNESS', '--no-standard-checks', '--trace']
         tmpdir = tempfile.mkdtemp(prefix='t_', dir=s.work)
